@@ -416,20 +416,28 @@ def ensure_raise(ctx, prog):
     sets = q.calls_in(F, "AdjustHeightsHeap::set_height")
     adds = q.calls_in(F, "AdjustHeightsHeap::add_unless_mem")
     sw = None
+    inverted = False
+    is_h = lambda e_, n_: mentions(e_, lambda x: x[0] == "call" and x[1].endswith("::height") and mentions(x, lambda y: y == ("arg", n_)))
     for b in F.blocks:
         t = b["term"]
         if t["k"] == "switch":
             e = expr(F, t["on"], du)
-            if e[0] == "bin" and e[1] == "Ge" and mentions(e[2], lambda x: x[0] == "call" and x[1].endswith("::height") and
-                                                           mentions(x, lambda y: y == ("arg", 4))) and \
-                    mentions(e[3], lambda x: x[0] == "call" and x[1].endswith("::height") and mentions(x, lambda y: y == ("arg", 5))):
-                sw = b["id"]
+            neg = False
+            while e[0] == "un" and e[1] == "Not":
+                e, neg = e[2], not neg
+            if e[0] != "bin":
+                continue
+            # child.height() >= parent.height()  ==  parent.height() <= child.height()  ==  !(child.height() < parent.height())
+            if (e[1] == "Ge" and is_h(e[2], 4) and is_h(e[3], 5)) or (e[1] == "Le" and is_h(e[2], 5) and is_h(e[3], 4)):
+                sw, inverted = b["id"], neg
+            elif (e[1] == "Lt" and is_h(e[2], 4) and is_h(e[3], 5)) or (e[1] == "Gt" and is_h(e[2], 5) and is_h(e[3], 4)):
+                sw, inverted = b["id"], not neg
     ctx.site(R, F, "violation test bb%s; set_height %s; add_unless_mem %s" % (sw, [t.bb for t in sets], [t.bb for t in adds]))
     if sw is None or not sets or not adds:
         ctx.fail(R, "shape", "ensure_height_requirement: expected `child.height() >= parent.height()` guarding "
                  "add_unless_mem and set_height", fn=F, kind="anchor")
         return
-    true_t = [x for x in c.succ[sw] if 0 not in c.edge_values(sw, x)]
+    true_t = [x for x in c.succ[sw] if (0 not in c.edge_values(sw, x)) != inverted]      # edges on which the edge is violated
     for name, sites in (("set_height", sets), ("add_unless_mem", adds)):
         p = c.path(true_t, c.exits, avoid={t.bb for t in sites})
         if p is not None:
